@@ -88,11 +88,15 @@ func randContainer(r *rand.Rand) *tree {
 var recOpNames = []string{"Len", "Index", "Index", "Get", "Get", "IndexOrGet", "Set", "Set", "SetByIndex", "Add", "Unset", "Unset",
 	"UnsetByIndex", "UnsetByIndex", "Pop", "Move", "SortKeys", "Load", "Marshal", "Iterate", "Interface", "Index", "Get"}
 
+// recent keys / paths of the current trace: operations on what was just touched are where stale
+// bookkeeping (index entries, soft-deleted slots, cursors) shows
+var recentKeys []string
+
 func randOp(r *rand.Rand, doc *tree, approxLen int) astOp {
 	op := astOp{O: recOpNames[r.Intn(len(recOpNames))]}
 	// a path: root mostly, sometimes one or two steps
 	cur := doc
-	for d := r.Intn(3); d > 0 && cur != nil && len(cur.Elems) > 0; d-- {
+	for d := r.Intn(5) - 2; d > 0 && cur != nil && len(cur.Elems) > 0; d-- {
 		i := r.Intn(len(cur.Elems))
 		if cur.K == "obj" && r.Intn(2) == 0 {
 			op.Path = append(op.Path, astStep{IsKey: true, Key: cur.Keys[i]})
@@ -126,12 +130,19 @@ func randOp(r *rand.Rand, doc *tree, approxLen int) astOp {
 		return 0
 	}
 	key := func() string {
+		if len(recentKeys) > 0 && r.Intn(2) == 0 {
+			return recentKeys[len(recentKeys)-1-r.Intn(min(3, len(recentKeys)))]
+		}
+		if cur != nil && cur.K == "obj" && len(cur.Keys) > 0 && r.Intn(3) == 0 {
+			return cur.Keys[len(cur.Keys)-1-r.Intn(min(3, len(cur.Keys)))] // keys near the tail
+		}
 		if cur != nil && cur.K == "obj" && len(cur.Keys) > 0 && r.Intn(4) > 0 {
 			return cur.Keys[r.Intn(len(cur.Keys))]
 		}
 		return recKeys[r.Intn(len(recKeys))]
 	}
 	op.I, op.J, op.Key = idx(), idx(), key()
+	recentKeys = append(recentKeys, op.Key)
 	if op.O == "SortKeys" || op.O == "Load" {
 		op.I = r.Intn(2)
 	}
@@ -164,6 +175,7 @@ func astrecMain(args []string) int {
 	ops := 0
 	for id := 1; id <= *n; id++ {
 		doc := randContainer(r)
+		recentKeys = recentKeys[:0]
 		mode := astCreateModes[r.Intn(len(astCreateModes))]
 		text := spaced(doc.String(), r.Intn(2), r)
 		root, err := newRoot(mode, doc, text)
